@@ -43,6 +43,12 @@ def specs_for(progs, sem, tier, rng):
                 specs.append(psrun.make_spec(p, s, {"kind": "random", "seed": rng.randrange(1 << 30), "penv": rng.choice([0.4, 0.8])},
                                              name="%s#%sr%d" % (p["name"], mode, k), vdr=mode, files=True,
                                              faults={rng.choice(jobs): "errors"}, restart=True, vdr_jitter=500))
+            # ... and one in which it is the last job of the program that fails: everything
+            # before it is complete and partly cleaned when the fresh runtime takes over
+            if jobs:
+                specs.append(psrun.make_spec(p, s, {"kind": "random", "seed": rng.randrange(1 << 30), "penv": 0.6},
+                                             name="%s#%srl" % (p["name"], mode), vdr=mode, files=True,
+                                             faults={jobs[-1]: "errors"}, restart=True, vdr_jitter=200))
     return specs
 
 
